@@ -108,7 +108,7 @@ def run(ctx):
     W = min(vlib.NCPU, 16)
 
     # ------------------------------------------------------------------ tables
-    n_rand = 30 if quick else 1500
+    n_rand = 30 if quick else 600
     tab_mc = ctx.path("tables", "mc", "TxBufTables.tla")
     n_tables = tables_module(tab_mc, CURATED3 + random_tables(rng, n_rand))
     tab_cur = ctx.path("tables", "cur", "TxBufTables.tla")
@@ -121,23 +121,28 @@ def run(ctx):
     binary = ctx.path("bin", "gtxbuf.test")
     pool = ThreadPoolExecutor(max_workers=5)
     f_build = pool.submit(ctx.go_test, "gdriver/gtxbuf", "", overlay=ov, compile_only=True, binary=binary, timeout=900)
+    # race-instrumented binary for the concurrent driver: "a single kernel goroutine serializes all
+    # requests" is the mechanism behind the concurrent clause; an unsynchronised access is a break of it
+    binary_race = ctx.path("bin", "gtxbuf.race.test")
+    f_build_race = pool.submit(ctx.go_test, "gdriver/gtxbuf", "", overlay=ov, compile_only=True, binary=binary_race, timeout=1500, race=True)
 
     # ------------------------------------------------------------------ 1. TLC: the design and the code as it is
-    mp2 = 5 if quick else 6
+    mp2 = 4 if quick else 6
     mp3 = 3 if quick else 4
-    futs = {
+    skip_mc = bool(os.environ.get("VERIF_C19_SKIP_MC")) or bool(ctx.replay)   # development aid (mutation experiments): Go side only
+    futs = {} if skip_mc else {
         "mc2-design": pool.submit(R.tlc, "mc2design", "TxBufMC", "TxBuf_mc2.cfg", {"MaxPending": mp2, "ByValueInvalidation": "FALSE"}, workers=4, timeout=1500),
         "mc2-asis": pool.submit(R.tlc, "mc2asis", "TxBufMC", "TxBuf_mc2.cfg", {"MaxPending": mp2, "ByValueInvalidation": "TRUE"}, workers=4, timeout=1500),
         "mc3-design": pool.submit(R.tlc, "mc3design", "TxBufMC", "TxBuf_mc3.cfg", {"MaxPending": mp3, "ByValueInvalidation": "FALSE"}, tables=tab_mc, workers=W, timeout=3000),
         "mc3-asis": pool.submit(R.tlc, "mc3asis", "TxBufMC", "TxBuf_mc3.cfg", {"MaxPending": mp3, "ByValueInvalidation": "TRUE"}, tables=tab_mc, workers=W, timeout=3000),
         "cex": pool.submit(R.tlc, "cex", "TxBufMC", "TxBuf_cex.cfg", None, workers=2, timeout=600, allow_violation=True),
     }
-    if not quick:
+    if not quick and not skip_mc:
         futs["props"] = pool.submit(R.tlc, "props", "TxBufMC", "TxBuf_props.cfg", None, workers=4, timeout=1500)
     # behaviour export (spec -> code)
     h2 = 4 if quick else 5
     f_emit2 = pool.submit(R.tlc, "emit2", "TxBufMC", "TxBuf_emit.cfg", {"MaxHist": h2}, workers=W, timeout=3000)
-    f_emit3 = pool.submit(R.tlc, "emit3", "TxBufMC", "TxBuf_emit3.cfg", {"MaxHist": 4}, tables=tab_cur, workers=W, timeout=3000)
+    f_emit3 = pool.submit(R.tlc, "emit3", "TxBufMC", "TxBuf_emit3.cfg", {"MaxHist": 4 if quick else 5}, tables=tab_cur, workers=W, timeout=3000)
     sim_hist = 8 if quick else 12
     sim_workers = 4
     sim_num = 150 if quick else 2500        # per worker; every trace prints all successors of its last state
@@ -148,10 +153,10 @@ def run(ctx):
     res = {k: f.result() for k, f in futs.items()}
     # vacuity of the model: the deviation branch is reachable in the as-is runs (more states than the
     # design), and every action is taken (counted below on the exported spec behaviours)
-    if not (res["mc2-asis"]["distinct"] > res["mc2-design"]["distinct"] and res["mc3-asis"]["distinct"] > res["mc3-design"]["distinct"]):
+    if not skip_mc and not (res["mc2-asis"]["distinct"] > res["mc2-design"]["distinct"] and res["mc3-asis"]["distinct"] > res["mc3-design"]["distinct"]):
         raise vlib.Inconclusive("vacuity: the as-is runs never reach the named deviation")
     # the as-is design breaks the pure invariant only through the named deviation -- and does break it
-    if not (res["cex"]["violated"] and "Invariant PendingAppliesInOrder is violated" in res["cex"]["out"]):
+    if not skip_mc and not (res["cex"]["violated"] and "Invariant PendingAppliesInOrder is violated" in res["cex"]["out"]):
         raise vlib.Inconclusive("expected TLC counterexample (as-is spec vs pure PendingAppliesInOrder) not produced")
     states_exh = sum(res[k]["distinct"] for k in res if k != "cex")
     trans_exh = sum(res[k]["states"] for k in res if k != "cex")
@@ -212,6 +217,22 @@ def run(ctx):
     if ctx.replay:
         jobs = jobs[:1]
     done = run_children(ctx, binary, jobs, timeout=3000)
+
+    race_hist = 0
+    if not ctx.replay:
+        f_build_race.result()
+        race_hist = 300 if quick else 3000
+        rc_r, out_r = ctx.go_test("gdriver/gtxbuf", "^TestVerifC19Conc$", binary=binary_race, timeout=3000, env={
+            "VERIF_OUT": ctx.path("go", "race.out"), "VERIF_LIN": ctx.path("go", "race-lin.ndjson"),
+            "VERIF_SEED": str(ctx.seed + 1), "VERIF_HISTORIES": str(race_hist), "GORACE": "halt_on_error=0"})
+        races = out_r.split("WARNING: DATA RACE")[1:]
+        in_buf = [r for r in races if re.search(r"gdriver/gtxbuf/(workingstate|txbuffer)\.go", r.split("==================")[0])]
+        if in_buf:
+            ctx.violation("Linearizable", "Buffer(concurrent)", "data-race",
+                          "Go race detector: unsynchronised access inside gtxbuf while goroutines mix AddTx/Buffered/Rebase on one Buffer (the kernel goroutine no longer serializes the requests):\n"
+                          + in_buf[0].split("==================")[0][:2500], replay_obj={"race_report": in_buf[0][:6000]})
+        elif rc_r != 0:
+            raise vlib.Inconclusive("race-instrumented concurrent driver failed rc=%s\n%s" % (rc_r, out_r[-3000:]))
 
     recs = []
     for o_ in outs:
@@ -320,7 +341,26 @@ def run(ctx):
             return {"ok": True, "states": r["distinct"]}
 
         vf = [pool.submit(validate, "trace", "TxBufTrace", "TxBuf_trace.cfg", p, "trace.ndjson", n) for p, n, _ in tf]
-        lf = pool.submit(validate, "lin", "TxBufLin", "TxBuf_lin.cfg", lin, "lin.ndjson", 0)
+        # concurrent histories: split at "reset" lines; call ids are line numbers, re-based per chunk
+        lin_lines = open(lin).read().splitlines()
+        starts = [i for i, l in enumerate(lin_lines) if l.startswith('{"ev":"reset"')]
+        nchunks = 1 if quick else 6
+        per = (len(starts) + nchunks - 1) // nchunks
+        lfs = []
+        for c in range(nchunks):
+            hs = starts[c * per:(c + 1) * per]
+            if not hs:
+                continue
+            lo = hs[0]
+            hi = starts[(c + 1) * per] if (c + 1) * per < len(starts) else len(lin_lines)
+            p = ctx.path("trace", "lin-%d.ndjson" % c)
+            with open(p, "w") as f:
+                for l in lin_lines[lo:hi]:
+                    e = json.loads(l)
+                    if e["ev"] != "reset":
+                        e["id"] -= lo
+                    f.write(json.dumps(e, separators=(",", ":")) + "\n")
+            lfs.append((p, len(hs), pool.submit(validate, "lin", "TxBufLin", "TxBuf_lin.cfg", p, "lin.ndjson", 0)))
         for (p, n, k), f in zip(tf, vf):
             v = f.result()
             if v.get("ok"):
@@ -334,20 +374,19 @@ def run(ctx):
                 bad_line = open(p).read().splitlines()[(v["depth"] or 1) - 1] if v.get("depth") else "?"
                 raise vlib.Inconclusive("TxBufTrace.tla cannot explain line %s of a recorded execution (no named predicate failed): %s"
                                         % (v.get("depth"), bad_line[:600]))
-        v = lf.result()
-        if v.get("ok"):
-            lin_hist = cnc.get("histories", 0)
-            tv += lin_hist
-        elif v.get("invariant"):
-            ctx.violation(v["invariant"], "concurrent-history", "spec-invariant-on-linearization",
-                          "TxBufLin.tla: invariant %s false on a linearization of a real concurrent history\n%s" % (v["invariant"], v["msg"][-2500:]))
-        else:
-            # find the history that has no linearization
-            lines = open(lin).read().splitlines()
-            consumed = v.get("depth") or 0
-            ctx.violation("Linearizable", "Buffer(concurrent)", "no-linearization",
-                          "a concurrent AddTx/Buffered/Rebase history recorded from the real Buffer has no linearization in TxBuf.tla (search stopped at depth %s of %d lines+calls)" % (consumed, len(lines)),
-                          replay_obj={"lin_file_excerpt": lines[:80]})
+        for p, nh, f in lfs:
+            v = f.result()
+            if v.get("ok"):
+                lin_hist += nh
+                tv += nh
+            elif v.get("invariant"):
+                ctx.violation(v["invariant"], "concurrent-history", "spec-invariant-on-linearization",
+                              "TxBufLin.tla: invariant %s false on a linearization of a real concurrent history\n%s" % (v["invariant"], v["msg"][-2500:]))
+            else:
+                lines = open(p).read().splitlines()
+                ctx.violation("Linearizable", "Buffer(concurrent)", "no-linearization",
+                              "a concurrent AddTx/Buffered/Rebase history recorded from the real Buffer has no linearization in TxBuf.tla (search stopped at depth %s; file has %d lines)" % (v.get("depth"), len(lines)),
+                              replay_obj={"lin_file": lines[:400]})
     ctx.traces_validated = tv
 
     # ------------------------------------------------------------------ evidence
@@ -375,8 +414,11 @@ def run(ctx):
         "spec_variant_followed_by_code": {"TRUE": "as-is (by-value pruning of invalidated txs)", "FALSE": "design (positional pruning)", None: "mixed"}[variant],
         "traces_validated_against_impl": tv,
         "concurrent_histories_linearized": lin_hist, "concurrent_calls": cnc.get("calls", 0),
-        "overlapping_calls": cnc.get("overlapping_calls", 0),
+        "overlapping_calls": cnc.get("overlapping_calls", 0), "race_detector_histories": race_hist,
         "exhaustive": True,
     }
     pool.shutdown(wait=False)
+    if skip_mc:
+        ctx.log("NOTE: VERIF_C19_SKIP_MC / --replay: TLC exhaustive runs skipped (development mode)")
+        cov["exhaustive"] = False
     return ctx.finish("model_checking", extra_cov=cov)
